@@ -50,6 +50,8 @@ def build(spec):
 
 def own_steady(spec):
     ss = spec.steady()
+    if ss is None:
+        return None          # singular steady system (unit root): the level is not pinned down
     out = {spec.var(j): ss[j] for j in range(spec.n)}
     for k, e in enumerate(spec.meas):
         out[spec.obs(k)] = sum(c * ss[j] for (j, s, c) in e["terms"]) + e.get("const", 0.0)
@@ -239,6 +241,8 @@ def check_model(spec, res, ctx, only=None):
         for n_ in z.names():
             if n_[0] not in "vo":
                 continue
+            if not dev and ss is None:
+                continue
             target = 0.0 if dev else ss[n_]
             if not np.allclose(z.arr[n_], target, rtol=1e-8, atol=1e-9):
                 bad("steady_path", "zero-input %s path of %s leaves %r (max dev %.3e)" % ("deviation" if dev else "level", n_, target, np.nanmax(np.abs(z.arr[n_] - target))),
@@ -248,9 +252,13 @@ def check_model(spec, res, ctx, only=None):
         if a is None or b is None:
             continue
         for n_ in a.names():
-            if n_[0] in "vo" and not np.allclose(b.arr[n_] - ss[n_], a.arr[n_], rtol=1e-8, atol=1e-9):
+            if n_[0] not in "vo":
+                continue
+            # the steady path is the harness's own steady state where it is pinned down, else the zero-input level path
+            ref_level = ss[n_] if ss is not None else resp[(False, ())].arr[n_]
+            if not np.allclose(b.arr[n_] - ref_level, a.arr[n_], rtol=1e-8, atol=1e-9):
                 bad("level_vs_deviation", "input %r: level - steady differs from deviation simulation for %s by %.3e"
-                    % (s, n_, np.nanmax(np.abs(b.arr[n_] - ss[n_] - a.arr[n_]))), input=[list(s)], input_kind=s[0])
+                    % (s, n_, np.nanmax(np.abs(b.arr[n_] - ref_level - a.arr[n_]))), input=[list(s)], input_kind=s[0])
                 break
 
     # (f) superposition (deviation bound 2)
@@ -334,6 +342,9 @@ def check_model(spec, res, ctx, only=None):
         bound = 100.0 * (min(rho + 0.02, 0.9999)) ** (t_end - T_SHOCK) * max(dmax, 1.0) + 1e-8
         half = T_SHOCK + H_LONG // 2
         d1, d2 = float(np.max(dist[T_SHOCK:half])), float(np.max(dist[half:]))
+        if cls.get("num_unit"):
+            bound = np.inf           # unit roots: bounded, not decaying
+            res.count("models_with_unit_roots")
         if not np.isfinite(dmax) or dist[-1] > bound or (rho <= 0.96 and d2 > d1 * (1 + 1e-6) + 1e-8):
             bad("explosive", "distance from steady state at the end of %d periods is %.3e (oracle bound %.3e, largest stable root %.4f, "
                 "window maxima %.3e -> %.3e)" % (H_LONG, dist[-1], bound, rho, d1, d2), input_kind="long", mode=True)
@@ -361,7 +372,8 @@ def run(ctx, total, info):
     c = total.counters
     info["floors"] = {"models": (len(fam), 300), "determinate": (c.get("oracle_determinate", 0), 150),
                       "indeterminate": (c.get("oracle_indeterminate", 0), 15), "no_stable": (c.get("oracle_no_stable", 0), 30),
-                      "distinct_cases": (len(total.nontrivial), 8000)}
+                      "distinct_cases": (len(total.nontrivial), 8000),
+                      "unit_root_models": (c.get("models_with_unit_roots", 0), 5)}
 
 
 def replay(case):
